@@ -31,7 +31,7 @@ pub fn info() -> PropInfo {
         id: "C11",
         run,
         replay,
-        rule: "cases = (tag content 't'+s, XML/HTML mode, duplicate checking on/off, iterator from Attributes::new/html or from a start event read by the reader). Enumerated: every s up to length N over {space, tab, =, \", ', a, b, /}; generated: attribute lists (1-7 attributes, both quote kinds, arbitrary spacing, values with blanks/other quote/=/>) with injected faults (missing '=', missing value, unquoted value, unterminated quote, repeated key), also faults after faults. The reference model predicts every item (key bytes, value bytes, error variant and positions) and the iterator must then return None on three further calls. Non-trivial = at least two attributes of which at least one is faulty and at least one well-formed one comes after a faulty one. Keys / values up to 80 bytes and lists of 20..50 attributes occur; in a third of the generated cases the current setting is asserted again with with_checks(current) before chosen next() calls, which must not change anything. Keys include ones that start with or contain multi-byte characters (two of them sharing their first byte), also as the repeated key.",
+        rule: "cases = (tag content 't'+s, XML/HTML mode, duplicate checking on/off, iterator from Attributes::new/html or from a start event read by the reader). Enumerated: every s up to length N over {space, tab, =, \", ', a, b, /}; generated: attribute lists (1-7 attributes, both quote kinds, arbitrary spacing, values with blanks/other quote/=/>) with injected faults (missing '=', missing value, unquoted value, unterminated quote, repeated key), also faults after faults. The reference model predicts every item (key bytes, value bytes, error variant and positions) and the iterator must then return None on three further calls. Non-trivial = at least two attributes of which at least one is faulty and at least one well-formed one comes after a faulty one. Keys / values up to 80 bytes and lists of 20..50 attributes occur; in a third of the generated cases the current setting is asserted again with with_checks(current) before chosen next() calls, which must not change anything. Keys include ones that start with or contain multi-byte characters (two of them sharing their first byte), also as the repeated key. When checking is wanted, every other case relies on the documented default (on) of the four constructors instead of calling with_checks(true).",
         assumptions: &["a '=' in key-start position (e.g. `t =x`) is an undocumented input class: only totality and termination are checked there (counted as excluded: ambiguous-eq-at-key-start)", "keys that take part in duplicate detection are the keys that were followed by '=' plus, in HTML mode, value-less keys"],
         level: "exploration",
         variants: &["full"],
@@ -79,14 +79,20 @@ pub fn check(c: &Case) -> Verdict {
         match r.read_event() {
             Ok(Event::Start(e)) if &*e == bytes => {
                 let mut it = if c.html { e.html_attributes() } else { e.attributes() };
-                it.with_checks(c.checks);
+                // checking is ON by default (documented): when it is wanted, every other case relies on
+                // the default instead of asking for it
+                if !(c.checks && c.content.0.len() % 2 == 0) {
+                    it.with_checks(c.checks);
+                }
                 collect(it, cap, c.checks, c.reassert)
             }
             _ => return Verdict::excluded("content-is-not-one-start-tag"),
         }
     } else {
         let mut it = if c.html { Attributes::html(s, 1) } else { Attributes::new(s, 1) };
-        it.with_checks(c.checks);
+        if !(c.checks && c.content.0.len() % 2 == 0) {
+            it.with_checks(c.checks);
+        }
         collect(it, cap, c.checks, c.reassert)
     };
     let got = match got {
